@@ -1,14 +1,18 @@
 import Mieru.Proofs.Arq
+import Mieru.Proofs.SegTree
 import Mieru.Gen.Facts
+import Mieru.Gen.UdpFacts
 /-!
 # C13 — acks never run ahead of receipt; retransmissions never change content
 
 Stated over every reachable state of `Mieru.Model.Arq` (all fault schedules and timings of C02),
 and about the complete history of what was ever emitted (`sent`, `acked`), not just what is in
 flight. Tie to the code: `Mieru.Gen.Facts` (every assignment to an `unAckSeq` field has right-hand
-side `s.nextRecv.Load()`; `nextRecv` advances at one site) and the wire monitor of
-harness/props/c13.go, which decodes every datagram of every UDP run and compares each cumulative
-ack with the set of datagrams the network had handed to its emitter so far.
+side `s.nextRecv.Load()`; `nextRecv` advances at one site), `Mieru.Gen.UdpFacts` (every content write, the
+retransmission closure, the release guards), the wire monitor (harness/sim/udpmon.go, driven by the C13
+scenario in harness/props/c02.go), which decodes every datagram of every UDP run and compares each
+cumulative ack with the set of datagrams the network had handed to its emitter so far, the live sampler of
+both endpoints' window state (harness/sim/observe.go) and the container stage (harness/props/c13_tree.go).
 By definition outside the numbering invariant (excluded by type): pure acks carry `seq = nextSend−1`
 and close requests generated on error carry `seq = nextSend`.
 -/
@@ -80,6 +84,131 @@ theorem seq_assignment_lock_discipline :
        ("Session.inputClose", "s.nextSend.Load()", true), ("Session.inputClose", "s.nextSend.Add(1)", true),
        ("Session.closeWithError", "s.nextSend.Load()", true), ("Session.closeWithError", "s.nextSend.Add(1)", true)] := by
   decide
+
+/-- Structural tie (regenerated from session.go): the release loop of the receiver. `nextRecv` advances
+    (one site, `discard_predicate_is_strict`) only behind these guards, in this order: the queue has room;
+    the smallest buffered segment satisfies `seq <= nextRecv`; a stale one (`seq < nextRecv`) is skipped by
+    `continue` WITHOUT advancing; the segment was inserted into recvQueue. Changing the `seq < nextRecv`
+    test or what its branch does changes this list. -/
+theorem receiver_release_guards :
+    (Gen.UdpFacts.recvPathIfs.filter (fun x => x.1 == "Session.moveRecvBufToRecvQueue")) =
+      [("Session.moveRecvBufToRecvQueue", "if s.recvQueue.Remaining() <= 0", "return nil"),
+       ("Session.moveRecvBufToRecvQueue", "return", "return seq <= nextRecv"),
+       ("Session.moveRecvBufToRecvQueue", "if seg == nil || !deleted", "return nil"),
+       ("Session.moveRecvBufToRecvQueue", "if seq < nextRecv", "continue"),
+       ("Session.moveRecvBufToRecvQueue", "if !s.recvQueue.Insert(seg)", "return nil"),
+       ("Session.moveRecvBufToRecvQueue", "if !s.recvBuf.Insert(seg)", "return fmt.Errorf(\"insert %v from receive queue back to receive buffer failed\", seg)"),
+       ("Session.moveRecvBufToRecvQueue", "if ok", "s.remoteWindowSize.Store(uint32(das.windowSize))")] := by decide
+
+/-- Structural tie (regenerated from session.go): every place that writes a field identifying a segment's
+    content. A numbered segment gets its `seq` from `nextSend.Load()` at creation (the pure ack carries
+    `nextSend − 1`, the close request the value read under the same lock), its `fragment` from the loop
+    counter, and its payload is a FRESH buffer (`make`, filled by `copy`), never the caller's slice.
+    There is no other write of `seq`, `fragment`, `payload`, `payloadLen` or `protocol` in session.go. -/
+theorem content_fields_written_at_creation_only :
+    Gen.UdpFacts.contentFieldWrites =
+      [("Session.Write", "protocol", "uint8(openSessionRequest)"),
+       ("Session.Write", "seq", "s.nextSend.Load()"),
+       ("Session.Write", "seg.metadata.(*sessionStruct).payloadLen", "uint16(len(b))"),
+       ("Session.Write", "seg.payload", "make([]byte, len(b))"),
+       ("Session.writeChunk", "protocol", "uint8(protocol)"),
+       ("Session.writeChunk", "seq", "s.nextSend.Load()"),
+       ("Session.writeChunk", "fragment", "uint8(i)"),
+       ("Session.writeChunk", "payloadLen", "payloadLen"),
+       ("Session.writeChunk", "payload", "make([]byte, partLen)"),
+       ("Session.runOutputOncePacket", "baseStruct.protocol", "uint8(ackClientToServer)"),
+       ("Session.runOutputOncePacket", "baseStruct.protocol", "uint8(ackServerToClient)"),
+       ("Session.runOutputOncePacket", "seq", "uint32(mathext.Max(0, int(s.nextSend.Load())-1))"),
+       ("Session.inputData", "protocol", "uint8(openSessionResponse)"),
+       ("Session.inputData", "seq", "s.nextSend.Load()"),
+       ("Session.inputClose", "protocol", "uint8(closeSessionResponse)"),
+       ("Session.inputClose", "seq", "s.nextSend.Load()"),
+       ("Session.inputClose", "payloadLen", "0"),
+       ("Session.closeWithError", "protocol", "uint8(closeSessionRequest)"),
+       ("Session.closeWithError", "seq", "closeRequestSeq")] := by decide
+
+/-- Structural tie (regenerated from session.go): a retransmission re-sends the STORED segment. Inside the
+    retransmission scan the only fields of the segment that are assigned are the bookkeeping ones
+    (`ackCount`, `txCount`, `txTime`, `txTimeout`) and the cumulative ack `das.unAckSeq`; the segment handed
+    to `s.output` is the iterator itself. -/
+theorem retransmission_reuses_stored_segment :
+    Gen.UdpFacts.retransmitClosureWrites =
+      ["nextTX", "err", "closeSessionReason", "satisfyEarlyRetransmission", "hasLoss", "hasTimeout",
+       "iter.ackCount", "iter.txCount++", "iter.txTime", "iter.txTimeout", "das", "_", "das.unAckSeq",
+       "err", "err", "closeSessionReason", "totalTransmissionCount++"] ∧
+    Gen.UdpFacts.outputCalls =
+      [("Session.runOutputOnceStream", "seg"), ("Session.runOutputOncePacket", "iter"),
+       ("Session.runOutputOncePacket", "seg"), ("Session.runOutputOncePacket", "ackSeg"),
+       ("Session.inputClose", "seg2"), ("Session.closeWithError", "seg")] := by decide
+
+/-! ## The container: `segmentTree` (`Mieru.Model.SegTree`, tied to the real tree op by op in harness/props/c13_tree.go)
+
+sendBuf, sendQueue, recvBuf and recvQueue are `segmentTree`s. The statements above are about the abstract
+interval `[lo, qLo)`; the ones below are about the container the code manipulates. -/
+
+/-- Every operation keeps the tree sorted by strictly increasing sequence number (so no sequence number
+    occurs twice) and within its capacity. -/
+theorem segtree_invariant {α : Type} (t : SegTree.T α) (h : SegTree.WF t) (k a : Nat) (v : α) (p : Nat × α → Bool) :
+    SegTree.WF (SegTree.insert t k v).1 ∧ SegTree.WF (SegTree.deleteMin t).1 ∧ SegTree.WF (SegTree.deleteMinIf t p).1 ∧
+    SegTree.WF (SegTree.deleteAll t) ∧ SegTree.WF (SegTree.discardBelow t a) ∧ SegTree.WF (SegTree.empty t.cap : SegTree.T α) :=
+  ⟨SegTree.insert_wf t k v h, SegTree.deleteMin_wf t h, SegTree.deleteMinIf_wf t p h, SegTree.deleteAll_wf t,
+   SegTree.discardBelow_wf t a h, SegTree.empty_wf _⟩
+
+/-- `Insert` = `ReplaceOrInsert` below the capacity: it fails exactly when the tree is full (even if the
+    sequence number is already there); otherwise the new entry is in, the entry that had the same
+    sequence number is out, and every other entry is untouched. -/
+theorem segtree_insert_spec {α : Type} (t : SegTree.T α) (h : SegTree.WF t) (k : Nat) (v : α) :
+    ((SegTree.insert t k v).2 = false ↔ t.cap ≤ t.items.length) ∧
+    ((SegTree.insert t k v).2 = true → ∀ x, x ∈ (SegTree.insert t k v).1.items ↔ x = (k, v) ∨ (x ∈ t.items ∧ x.1 ≠ k)) := by
+  unfold SegTree.insert
+  split
+  · rename_i hc; exact ⟨⟨fun _ => hc, fun _ => rfl⟩, fun hf => by cases hf⟩
+  · rename_i hc
+    refine ⟨⟨fun hf => (by cases hf), fun hc' => absurd hc' hc⟩, fun _ x => ?_⟩
+    exact SegTree.mem_insertSorted k v t.items h.1 x
+
+/-- Discard only what was acknowledged, over the container: the loop `DeleteMinIf(seq < unAckSeq)` until
+    nothing is deleted (as `inputAck` / `inputData` run it) removes exactly the entries with
+    `seq < unAckSeq` and keeps every entry with `seq ≥ unAckSeq` — in particular the segment the peer is
+    still waiting for. -/
+theorem discard_only_acked_container {α : Type} (t : SegTree.T α) (h : SegTree.WF t) (a : Nat) :
+    SegTree.discardLoop a (t.items.length + 1) t = SegTree.discardBelow t a ∧
+    ∀ x, x ∈ (SegTree.discardBelow t a).items ↔ x ∈ t.items ∧ a ≤ x.1 :=
+  ⟨SegTree.discardLoop_eq a _ t (Nat.lt_succ_self _), fun x => SegTree.mem_dropWhile_lt a t.items h.1 x⟩
+
+/-- … and it is the abstract step: when sendBuf holds the sequence numbers `[lo, qLo)`, after the loop it
+    holds `[max lo (min a qLo), qLo)` — `Arq.Step.recvAck`'s `lo := max lo (min a qLo)`. -/
+theorem sendbuf_discard_is_recvAck {α : Type} (t : SegTree.T α) (lo qLo a : Nat) (hle : lo ≤ qLo)
+    (hk : t.items.map (·.1) = List.range' lo (qLo - lo)) :
+    (SegTree.discardBelow t a).items.map (·.1) =
+      List.range' (max lo (min a qLo)) (qLo - max lo (min a qLo)) := by
+  unfold SegTree.discardBelow
+  simp only
+  rw [SegTree.map_fst_dropWhile, hk, SegTree.dropWhile_range']
+  have : lo + (qLo - lo) = qLo := by omega
+  rw [this]
+
+/-- Release only the segment numbered `nextRecv`, over the container: on a recvBuf without stale entries
+    `DeleteMinIf(seq ≤ nextRecv)` deletes iff the segment numbered `nextRecv` is buffered, what it hands over
+    is that segment, and everything left is numbered above it. -/
+theorem release_only_next_container {α : Type} (t : SegTree.T α) (h : SegTree.WF t) (n : Nat)
+    (hs : ∀ x ∈ t.items, n ≤ x.1) :
+    ((SegTree.deleteMinIf t (fun x => decide (x.1 ≤ n))).2.2 = true ↔ ∃ x ∈ t.items, x.1 = n) ∧
+    (∀ x, (SegTree.deleteMinIf t (fun x => decide (x.1 ≤ n))).2 = (some x, true) →
+      x.1 = n ∧ ∀ y ∈ (SegTree.deleteMinIf t (fun x => decide (x.1 ≤ n))).1.items, n < y.1) :=
+  SegTree.release_step t n h hs
+
+/-- `DeleteMin` hands over the entry with the smallest sequence number: sendQueue is transmitted, and
+    recvQueue is read, in sequence order. -/
+theorem segtree_deleteMin_is_minimum {α : Type} (t : SegTree.T α) (h : SegTree.WF t) (x : Nat × α)
+    (hx : (SegTree.deleteMin t).2 = some x) :
+    t.items = x :: (SegTree.deleteMin t).1.items ∧ ∀ y ∈ (SegTree.deleteMin t).1.items, x.1 < y.1 :=
+  SegTree.deleteMin_spec t h x hx
+
+example : (SegTree.insert (SegTree.insert (SegTree.insert (SegTree.empty 2) 5 'a').1 3 'b').1 3 'c').2 = false := by decide
+example : (SegTree.discardBelow (⟨8, [(4, 0), (5, 0), (6, 0), (7, 0)]⟩ : SegTree.T Nat) 6).items = [(6, 0), (7, 0)] := by decide
+example : SegTree.WF (⟨8, [(4, 0), (5, 0), (6, 0), (7, 0)]⟩ : SegTree.T Nat) := by
+  refine ⟨?_, by decide⟩; simp [List.pairwise_cons]
 
 /-! ## Non-vacuity -/
 example : ∃ s, Reach 4 s ∧ s.acked = [1] ∧ s.sent.length = 2 := by
